@@ -7,8 +7,8 @@
 (* evaluate, for every logged run, the discrete bounds the specification    *)
 (* implies: one trace, every object visited at most once, worklist pops     *)
 (* bounded by adoptions + 1, Rc::drop nesting independent of N, the whole   *)
-(* group destroyed; plus a (very generous) per-adoption CPU-time ratio      *)
-(* between a wide fan-out shape and a ring of the same run.                 *)
+(* group destroyed; plus a generous bound on how the CPU time per adoption   *)
+(* of a wide fan-out shape grows with its size (linearity as self-scaling). *)
 (***************************************************************************)
 EXTENDS Integers, Sequences, TLC, Json, IOUtils
 
@@ -18,7 +18,7 @@ VARIABLES l, bad
 vars == <<l, bad>>
 
 MaxDepth == 3          \* Rc::drop -> value -> inert nested Rc::drop
-RatioX10 == 200        \* per-adoption CPU time of any shape <= 20 x that of the ring baseline
+RatioX10 == 40         \* per-adoption CPU time of the 60000-wheel <= 4 x that of the 5000-wheel
 
 Ok(ln) ==
   CASE ln.k = "scale" ->
